@@ -343,6 +343,7 @@ func (c *Context) Quo(d, x, y *Decimal) (Condition, error) {
 	// so, we determine whether the remainder was more or less than half of the
 	// divisor and round accordingly.
 	nd := NumDigits(&d.Coeff)
+	var adjSticky int64
 	if rem.Sign() != 0 {
 		// Use the adjusted exponent to determine if we are Subnormal.
 		// If so, don't round. This computation of adj and the check
@@ -358,10 +359,18 @@ func (c *Context) Quo(d, x, y *Decimal) (Condition, error) {
 				// setExponent.
 				nd = unknownNumDigits
 			}
+		} else {
+			// The quotient is subnormal and is rounded exactly once, at Etiny,
+			// by setExponent. Append a non-zero sticky digit so that this
+			// rounding takes the discarded remainder into account.
+			d.Coeff.Mul(&d.Coeff, bigTen)
+			d.Coeff.Add(&d.Coeff, bigOne)
+			adjSticky = -1
+			nd++
 		}
 	}
 
-	res |= d.setExponent(c, nd, res, shift, -adjCoeffs, -adjExp10)
+	res |= d.setExponent(c, nd, res, shift, -adjCoeffs, -adjExp10, adjSticky)
 	return c.goError(res)
 }
 
